@@ -185,7 +185,10 @@ def _cp(x):
     return x
 
 
-def same_snapshot(a, b):
+def same_snapshot(a, b, dim_order=True):
+    if not dim_order:
+        a = dict(a, dims=sorted(a['dims']))
+        b = dict(b, dims=sorted(b['dims']))
     if a['dims'] != b['dims']:
         return 'dimensions changed: %r -> %r' % (a['dims'], b['dims'])
     if [k for k, _ in a['attrs']] != [k for k, _ in b['attrs']]:
